@@ -47,6 +47,11 @@ def panel(case):
         o = case.get("cell_origin") or 0
         X = pd.DataFrame({"dim_%d" % j: [pd.Series(cells[i][j].copy(), index=pd.RangeIndex(o, o + len(cells[i][j]))) for i in range(n)]
                           for j in range(c)})
+        # column names are labels, not data: the column order of the panel is the order that counts
+        if case.get("col_names") == "unsorted":
+            X.columns = pd.Index(["zeta", "dim_10", "Alpha", "dim_2"][:c])
+        elif case.get("col_names") == "ints_reversed":
+            X.columns = pd.Index(list(range(c - 1, -1, -1)))
     return cells, X
 
 
@@ -643,6 +648,7 @@ def panel_cases(draw, unequal=False, max_c=3, min_len=2, extra=None):
     case["int_cells"] = draw(st.integers(0, 4)) == 0
     case["fit_other"] = draw(st.integers(0, 2)) == 0
     case["cell_origin"] = draw(st.sampled_from([0, 0, 1, 7, 100]))
+    case["col_names"] = draw(st.sampled_from([None, None, "unsorted", "ints_reversed"]))
     return case
 
 
